@@ -643,13 +643,15 @@ theorem mem_readers {P : Params} {es : List Epoch} {lo hi : Nat} {e : Epoch} :
   rw [List.mem_reverse, List.mem_filter]
   simp
 
-/-- number of index entries of `a` at or after slot `lo` in the epochs a query for `[lo, hi]` consults -/
+/-- number of index entries of `a` the walk for `[lo, hi]` can collect: entries at or after slot `lo` (and, when the
+reader honours `before`, not after `hi`) in the epochs the query consults -/
 def entriesFrom (P : Params) (es : List Epoch) (lo hi : Nat) (a : Acct) : Nat :=
-  (((readers P es lo hi).flatMap (fun e => epochHistory e a)).filter (fun t => decide (lo ≤ t.slot))).length
+  ((((readers P es lo hi).flatMap (fun e => epochHistory e a)).filter (fun t => decide (lo ≤ t.slot))).filter
+    (fun t => !P.honourBefore || t.slot < hi + 1)).length
 
-/-- when the window is large enough the walk returns every entry at or after `lo` -/
+/-- when the window is large enough the walk returns every entry of the range -/
 theorem mem_iterBeforeUntilSlot {P : Params} {es : List Epoch} (h : WF P es) {lo hi : Nat} (hlh : lo ≤ hi + 1) (a : Acct)
-    (hfit : entriesFrom P es lo hi a ≤ P.batch) (t : Tx) :
+    (hfit : entriesFrom P es lo hi a ≤ P.batch) (t : Tx) (hthi : t.slot ≤ hi) :
     t ∈ iterBeforeUntilSlot P (readers P es lo hi) a P.batch (hi + 1) lo ↔
       (∃ e ∈ readers P es lo hi, t ∈ e.txs ∧ a ∈ t.accts) ∧ lo ≤ t.slot := by
   have hall : (readers P es lo hi).filter (fun e => decide (e.num ≤ (hi + 1) / P.epochLen)) = readers P es lo hi := by
@@ -659,6 +661,9 @@ theorem mem_iterBeforeUntilSlot {P : Params} {es : List Epoch} (h : WF P es) {lo
     have := Nat.div_le_div_right (c := P.epochLen) (Nat.le_add_right hi 1)
     simp; omega
   have hdesc := history_desc h a (rs := readers P es lo hi) readers_sub (readers_desc h lo hi)
+  have hb : (!P.honourBefore || decide (t.slot < hi + 1)) = true := by
+    have : decide (t.slot < hi + 1) = true := by simp; omega
+    simp [this]
   unfold iterBeforeUntilSlot
   rw [hall, takeWhile_eq_filter_of_desc lo hdesc]
   unfold entriesFrom at hfit
@@ -670,17 +675,18 @@ theorem mem_iterBeforeUntilSlot {P : Params} {es : List Epoch} (h : WF P es) {lo
       constructor
       · intro hm; cases hm
       · rintro ⟨⟨e, he, hte, hat⟩, hlo⟩
-        have : t ∈ ((readers P es lo hi).flatMap (fun e => epochHistory e a)).filter (fun t => decide (lo ≤ t.slot)) := by
-          rw [List.mem_filter, List.mem_flatMap]
-          exact ⟨⟨e, he, mem_epochHistory.2 ⟨hte, hat⟩⟩, by simpa using hlo⟩
+        have : t ∈ (((readers P es lo hi).flatMap (fun e => epochHistory e a)).filter (fun t => decide (lo ≤ t.slot))).filter
+            (fun t => !P.honourBefore || t.slot < hi + 1) := by
+          rw [List.mem_filter, List.mem_filter, List.mem_flatMap]
+          exact ⟨⟨⟨e, he, mem_epochHistory.2 ⟨hte, hat⟩⟩, by simpa using hlo⟩, hb⟩
         rw [hnil] at this; cases this
     · omega
-  · rw [if_neg hz, List.take_of_length_le hfit, List.mem_filter, List.mem_flatMap]
+  · rw [if_neg hz, List.take_of_length_le hfit, List.mem_filter, List.mem_filter, List.mem_flatMap]
     constructor
-    · rintro ⟨⟨e, he, hm⟩, hlo⟩
+    · rintro ⟨⟨⟨e, he, hm⟩, hlo⟩, _⟩
       exact ⟨⟨e, he, mem_epochHistory.1 hm⟩, by simpa using hlo⟩
     · rintro ⟨⟨e, he, hm⟩, hlo⟩
-      exact ⟨⟨e, he, mem_epochHistory.2 hm⟩, by simpa using hlo⟩
+      exact ⟨⟨⟨e, he, mem_epochHistory.2 hm⟩, by simpa using hlo⟩, hb⟩
 
 /-- whatever the window, the walk returns archived transactions that mention the account -/
 theorem iterBeforeUntilSlot_sub {P : Params} {rs : List Epoch} {a : Acct} {limit before untl : Nat} {t : Tx}
@@ -689,7 +695,8 @@ theorem iterBeforeUntilSlot_sub {P : Params} {rs : List Epoch} {a : Acct} {limit
   split at ht
   · cases ht
   · have h1 := (List.take_sublist _ _).subset ht
-    have h2 := (List.takeWhile_sublist _).subset h1
+    have h1' := (List.mem_filter.1 h1).1
+    have h2 := (List.takeWhile_sublist _).subset h1'
     rw [List.mem_flatMap] at h2
     obtain ⟨e, he, hm⟩ := h2
     exact ⟨e, (List.mem_filter.1 he).1, mem_epochHistory.1 hm⟩
@@ -705,7 +712,7 @@ theorem collectIndex_archived {P : Params} {es : List Epoch} {lo hi : Nat} {f : 
   exact ⟨e, readers_sub e he, b, hb, htb⟩
 
 /-- the hypothesis of the partial theorems: no included account has more than `batch` index entries at or after the
-start of the range (in the epochs the query consults) -/
+start of the range — and, when the reader honours `before`, not after its end — in the epochs the query consults -/
 def WindowFits (P : Params) (es : List Epoch) (lo hi : Nat) (f : Filter) : Prop :=
   ∀ a ∈ f.inc, entriesFrom P es lo hi a ≤ P.batch
 
@@ -744,7 +751,7 @@ theorem index_eq_scan {P : Params} {es : List Epoch} (h : WF P es) (lo hi : Nat)
       refine ⟨a, ha, ?_⟩
       rw [List.mem_filter]
       refine ⟨?_, hsend⟩
-      rw [mem_iterBeforeUntilSlot h (by omega) a (hfit a ha)]
+      rw [mem_iterBeforeUntilSlot h (by omega) a (hfit a ha) t (by omega)]
       exact ⟨⟨e, her, hte, hat⟩, by omega⟩
   have hiff : (decide (t ∈ collectIndex P es lo hi f) = true) ↔ (sendScan false (some f) t = true) := by
     rw [decide_eq_true_iff, hmem, sendIndex_iff, sendScan_false_iff]
